@@ -131,9 +131,11 @@ def escape_check(oc, pid='C12'):
     for name, body in docs.items():
         for enc, decl, bom in (('iso-8859-1', 'ISO-8859-1', b''), ('utf-16', 'UTF-16', b''), ('utf-8', 'UTF-8', b''), ('utf-8', None, codecs.BOM_UTF8),
                                ('utf-16-be', 'UTF-16', codecs.BOM_UTF16_BE), ('utf-16-le', 'UTF-16', codecs.BOM_UTF16_LE), ('cp1252', 'windows-1252', b''),
-                               ('ascii', 'US-ASCII', b'')):
+                               ('ascii', 'US-ASCII', b''), ('utf-8', None, b'')):
             try:
                 data = bom + (('<?xml version="1.0" encoding="%s"?>' % decl if decl else '') + body).encode(enc)
+                if not decl and not bom:
+                    data = b'\n  \n' + data + b'\n'           # (blank lines around an undeclared document are harmless to a parser)
             except UnicodeEncodeError:
                 continue                                   # this content has no spelling in that encoding
             res = from_all_sources(None, data)
@@ -554,6 +556,9 @@ def file_pool(rng):
     pool['html.xml'] = ('xml', '<html><body/></html>')
     pool['missing.mos.xml'] = ('missing',)
     pool['adir'] = ('directory',)
+    pool['0004%20roStoryMove.mos.xml'] = ('missing',)
+    pool['archive%d'] = ('directory',)
+    pool['100%s.mos.xml'] = ('xml', TJ.to_text(B.ready_to_air(message_id='89')))
     # running orders whose timing metadata is not numeric / not a time: classifiable, so inspect lists their stories and goes on
     pool['clock_durations_ro.mos.xml'] = ('xml', TJ.to_text(B.ro_doc([B.story('J1', [B.item('j1')], md=B.timing_md(duration='00:01:30')), B.story('J2', [])], message_id='1')))
     pool['junk_start_ro.mos.xml'] = ('xml', TJ.to_text(B.ro_doc([B.story('J1', [], md=B.timing_md(text_time='nan', media_time=''))], message_id='1', ed_start='tomorrow-ish')))
